@@ -25,12 +25,31 @@ var extraRules = map[string][]string{
 	"error-meta-complete":        {"C02", "C11"},
 	"error-writes-fresh":         {"C02", "C13"},
 	"close-order":                {"C14"},
-	"send-eof-tolerated":         {"C14", "C15"},
+	"send-eof-tolerated":         {"C02", "C14", "C15"},
 	"request-spec-set":           {"C12"},
 	"options-order-preserved":    {"C16", "C19"},
 	"gen-comments-via-protogen":  {"C17"},
 	"gen-qualified-idents":       {"C17"},
 	"codec-no-lossy-transform":   {"C02", "C05", "C11", "C18"},
+	// round-3 rules
+	"wire-number-base":             {"C05", "C06", "C07", "C10", "C18"},
+	"ctx-param-used":               {"C10", "C14", "C15"},
+	"error-wrap-verb":              {"C02", "C04", "C06", "C14", "C15"},
+	"codec-result-provenance":      {"C02", "C05", "C18"},
+	"literal-fields-complete":      {"C01", "C02", "C05", "C07", "C08", "C09", "C11", "C12"},
+	"gen-no-global-state":          {"C17"},
+	"limit-no-narrowing":           {"C09"},
+	"no-unsafe":                    {"C01", "C13"},
+	"no-lazy-meta-call":            {"C13"},
+	"no-content-length-sizing":     {"C09"},
+	"codec-default-options":        {"C01"},
+	"close-arg-is-outcome":         {"C02", "C15", "C19"},
+	"trailers-after-drain":         {"C03", "C04", "C11"},
+	"request-started-on-all-exits": {"C14"},
+	"writer-must-pass-through":     {"C01", "C05"},
+	"wrote-flag-before-write":      {"C02", "C05", "C11"},
+	"response-headers-flushed":     {"C11", "C02"},
+	"pool-hygiene":                 {"C06", "C07"},
 	// existing rules whose mechanism other properties rest on as well
 	"header-canonical":           {"C01", "C02", "C08", "C10", "C12"},
 	"spec-constants":             {"C01", "C02", "C06", "C08", "C10", "C11"},
